@@ -47,6 +47,13 @@ func defaultFormat(v interface{}, f fmt.State, c rune) {
 	fmt.Fprintf(f, format, v)
 }
 
+// unsignedFmtState hides the flags '+' and ' ': C ignores them for an unsigned conversion
+type unsignedFmtState struct{ fmt.State }
+
+func (s unsignedFmtState) Flag(c int) bool {
+	return c != '+' && c != ' ' && s.State.Flag(c)
+}
+
 type flagScanner struct {
 	flag       byte
 	start      string
